@@ -8,9 +8,12 @@
 EXTENDS CborData
 
 BigUint == [k |-> "uint", a |-> <<128, 0, 0, 0, 0, 0, 0, 0>>, w |-> 0]     \* 2^63: beyond int64
-WidenKey(p) == <<[p[1] EXCEPT !.w = Wider(p[1].w)], p[2]>>
+WidenKey(p) == <<[p[1] EXCEPT !.w = Wider(MinW(HeadArg(p[1])))], p[2]>>
+ArgOfNode(n) == IF n.k = "bstrw" THEN NatToArg(Len(Enc(n.x) \o n.g)) ELSE HeadArg(n)
+\* effective head width of a node (0 = argument inside the initial byte)
+EffW(n) == IF n.w # 0 THEN n.w ELSE MinW(ArgOfNode(n))
 HasW(n) == n.k \in {"uint", "nint", "bstr", "tstr", "arr", "map", "tag", "bstrw"}
-CanWiden(n) == HasW(n) /\ n.w < 8 /\ ~(n.k \in {"bstr", "tstr", "arr", "map"} /\ n.indef)
+CanWiden(n) == HasW(n) /\ ~(n.k \in {"bstr", "tstr", "arr", "map"} /\ n.indef) /\ EffW(n) < 8
 
 \* replacement nodes for node n (every node of the tree is offered each of these)
 NodeMutations(n) ==
@@ -18,7 +21,7 @@ NodeMutations(n) ==
    Null, Undef, True, Float16(60, 0), Simple(16), Tag(1, n), Tag(18, n), BigUint,
    RawBytes(<<255>>), RawBytes(<<28>>)}
   \cup (IF n.k \in {"bstr", "tstr", "arr", "map"} THEN {[n EXCEPT !.indef = TRUE]} ELSE {})
-  \cup (IF CanWiden(n) THEN {[n EXCEPT !.w = Wider(n.w)], [n EXCEPT !.w = Wider(Wider(n.w))]} ELSE {})
+  \cup (IF CanWiden(n) THEN {[n EXCEPT !.w = Wider(EffW(n))], [n EXCEPT !.w = Wider(Wider(EffW(n)))]} ELSE {})
   \cup (IF n.k = "arr" THEN {[n EXCEPT !.xs = Append(n.xs, UInt(0))]}
                             \cup (IF n.xs # <<>> THEN {[n EXCEPT !.xs = SubSeq(n.xs, 1, Len(n.xs) - 1)], [n EXCEPT !.xs = Reverse(n.xs)]} ELSE {})
         ELSE {})
@@ -45,6 +48,6 @@ TopMutations(b) ==
 
 \* valid re-spellings only (used where acceptance is demanded, C07/C09): widths and key order
 RespellMutations(n) ==
-  (IF CanWiden(n) THEN {[n EXCEPT !.w = w] : w \in {x \in {1, 2, 4, 8} : x > n.w}} ELSE {})
+  (IF CanWiden(n) THEN {[n EXCEPT !.w = w] : w \in {x \in {1, 2, 4, 8} : x > EffW(n)}} ELSE {})
   \cup (IF n.k = "map" /\ Len(n.ps) > 1 THEN {[n EXCEPT !.ps = Reverse(n.ps)], [n EXCEPT !.ps = Tail(n.ps) \o <<n.ps[1]>>]} ELSE {})
 =============================================================================
